@@ -45,7 +45,6 @@ def int_key(k, kind, v):
 class MsgProp:
     """Functional property over M ops: the implementation must agree with the (proved) model on
     the property's projection."""
-    cfgs_quick = ["std"]
     name = ""
 
     def project(self, op, ans):
@@ -87,7 +86,6 @@ def m_op(bs):
 class C04(MsgProp):
     id = "C04"
     name = "fixed-position fields"
-    cfgs_quick = ["std", "noalloc"]   # the no-alloc build has its own copies of nom's many_m_n and count
     rule = ("M ops (messages::parse on unarmored bytes): for each of the 24 layouts/branches at full length - "
             "all-zero, all-one, one-hot and one-cold at every bit, per-field boundary values, random joint "
             "assignments; type 7/13/20 with 1-4 elements, type 15 in its 88/110/160-bit forms, type 16 with 1-2 "
@@ -415,6 +413,18 @@ class C13(MsgProp):
                         pass
                     ops.append(m_op(gen.full_payload(t, f)))
             yield (f"text:{t}", ops)
+        # truncated type 5: the destination is what is present (every byte length from the draught on)
+        ops = []
+        for nbytes in range(38, 54):
+            for _ in range(4 if tier == "quick" else 40):
+                f = gen.base_fields(5, rng, ais.LAYOUTS[5])
+                chars = [rng.choice([1, 2, 19, 20, 33, 48, 0, 32]) for _ in range(20)]
+                v = 0
+                for c in chars:
+                    v = (v << 6) | c
+                f["destination"] = v
+                ops.append(m_op(gen.full_payload(5, f)[:nbytes]))
+        yield ("text:5-truncated", ops)
         for t, hdr in ((12, 72), (14, 40)):
             ops = []
             lens = list(range(1, 30)) + [40, 60, 100, 155, 156, 157] if tier == "quick" else list(range(1, 160))
@@ -639,7 +649,6 @@ class C16(MsgProp):
 class C03:
     id = "C03"
     name = "unarmoring"
-    cfgs_quick = ["std"]
     rule = ("U ops (messages::unarmor): all byte strings of length <= 1 over all 256 values x fill 0..5, all "
             "alphabet strings of length 2 (quick) / all 65536 two-byte strings (thorough) x fill 0..5, alphabet strings "
             "of every length 0..260 and step-sampled to 1000 with every fill, one out-of-alphabet byte injected at "
